@@ -815,5 +815,43 @@ func init() {
 			cases = append(cases, Case{Line: sp2.line(cb.Sent()), Impl: r2.canon, Desc: fmt.Sprintf("session(master=%v,out=%d) vs reference peer(out=%d, features=%s)", sessMaster, len(sp.outbox), nIn, cfg.features), Class: map[bool]string{true: "session-master", false: "session-slave"}[sessMaster], Nontrivial: len(pres.got) > 0 || len(tw.inbox) > 0})
 		}
 		c.Compare(cases)
+		grammarOracle(c, "C05", cases)
 	})
+}
+
+// grammarOracle holds the REAL Exchange to the conclusion of the Lean theorem accepts_grammar (Props/C05_accept.lean):
+// for each recorded conversation (a `session` case: configuration, handler, the remote's bytes, and what the real
+// Session did) the driver op `sessiongram` cuts the remote's bytes into a script, checks the local-side hypotheses and
+// evaluates the INPUT grammar InGrammar.conforms on the model's own writes. Where the hypothesis holds (conf=1) the
+// real Session must have ended with nil or a lost connection - not with a protocol error. The numbers also show how
+// much of the real corpus the (deliberately strict) grammar accepts.
+func grammarOracle(c *Ctx, prop string, cases []Case) {
+	var lines []string
+	var idx []int
+	for i, cs := range cases {
+		if strings.HasPrefix(cs.Line, "session ") {
+			lines = append(lines, "sessiongram "+strings.TrimPrefix(cs.Line, "session "))
+			idx = append(idx, i)
+		}
+	}
+	if len(lines) > 20000 {
+		// (thorough tier of C03: the first 20000 conversations are enough; the run stays within its time)
+		lines, idx = lines[:20000], idx[:20000]
+	}
+	out := c.Model(lines)
+	for k, o := range out {
+		cs := cases[idx[k]]
+		switch {
+		case strings.HasPrefix(o, "conf=1"):
+			c.Res.Distribution["input-grammar:conforming"]++
+			if strings.HasPrefix(cs.Impl, "err=error") || strings.HasPrefix(cs.Impl, "panic") || strings.HasPrefix(cs.Impl, "hang") {
+				c.Violate(prop+":conforming-conversation-rejected", "the remote's side of this conversation conforms to the input grammar (accepts_grammar's hypothesis holds), yet the real Exchange ended with a protocol error",
+					map[string]interface{}{"driver_line": trunc(lines[k], 20000), "model": o, "implementation": trunc(cs.Impl, 4000), "conversation": cs.Desc})
+			}
+		case strings.HasPrefix(o, "conf=0"):
+			c.Res.Distribution["input-grammar:not-conforming-or-outside-the-grammar"]++
+		default:
+			c.Res.Distribution["input-grammar:op-failed"]++
+		}
+	}
 }
